@@ -109,10 +109,41 @@ static void do_sim(vf_case *c) {
 	free(ps); free(qs); rpt_clear(&P); rpt2_clear(&Q); relt_clear(&E); mpz_clears(a, b, sum, NULL);
 }
 
+/* line: cid, base, a, b, c: R = [b]Q0, Q = [c]Q0, P = [a]P0: the two implementations of the projective line functions (basic / lazy-reduction) must
+ * agree on the line value and both must leave R = 2R resp. R + Q (reference group law) */
+static void do_line(vf_case *c) {
+	int bi = (int)mpz_get_si(c->v[1]); get_e0(0, bi);
+	rpt P; rpt2 R, Q, D, S; rpt_init(&P); rpt2_init(&R); rpt2_init(&Q); rpt2_init(&D); rpt2_init(&S);
+	rpt_mul(&RC, &P, &BP[bi], c->v[2]); rpt2_mul(&RC2, &R, &BQ[bi], c->v[3]); rpt2_mul(&RC2, &Q, &BQ[bi], c->v[4]);
+	if (P.inf || R.inf || Q.inf) return;
+	rpt2_add(&RC2, &D, &R, &R); rpt2_add(&RC2, &S, &R, &Q);
+	ep_t p; ep2_t r1, r2, q; fp12_t l1, l2; ep_new(p); ep2_new(r1); ep2_new(r2); ep2_new(q); fp12_new(l1); fp12_new(l2);
+	int th1, th2; relt A, B; relt_init(&A); relt_init(&B);
+	/* the Miller loops pass P prepared by pp_norm / with negated or scaled coordinates; for a differential check any fixed P will do */
+	ep_inject(p, &P, REP_AFF, 1);
+	for (int rep = 0; rep < 2; rep++) {
+		ep2_inject(q, &R, rep ? REP_PRJ : REP_AFF, 2); fp12_zero(l1); fp12_zero(l2);
+		VF_TRY(th1, pp_dbl_k12_projc_basic(l1, r1, q, p)); VF_TRY(th2, pp_dbl_k12_projc_lazyr(l2, r2, q, p)); transitions++;
+		if (th1 || th2) vf_fail(NULL, "pp_dbl_k12_projc raised (%d, %d)", th1, th2);
+		else { gt_get(&A, l1); gt_get(&B, l2); if (!relt_eq(&T12, &A, &B)) vf_fail(NULL, "pp_dbl_k12_projc: basic and lazyr line values differ"); r1->coord = PROJC; r2->coord = PROJC; expect_pt2("pp_dbl_k12_projc_basic point", r1, &D, 0, NULL); expect_pt2("pp_dbl_k12_projc_lazyr point", r2, &D, 0, NULL); }
+	}
+	if (!rpt2_eq(&R, &Q) && !S.inf) for (int rep = 0; rep < 2; rep++) {
+		ep2_inject(q, &Q, REP_AFF, 0); ep2_inject(r1, &R, rep ? REP_PRJ : REP_AFF, 2); ep2_copy(r2, r1); fp12_zero(l1); fp12_zero(l2);
+		if (!rep) { fp2_set_dig(r1->z, 1); fp2_set_dig(r2->z, 1); r1->coord = r2->coord = PROJC; }
+		VF_TRY(th1, pp_add_k12_projc_basic(l1, r1, q, p)); VF_TRY(th2, pp_add_k12_projc_lazyr(l2, r2, q, p)); transitions++;
+		if (th1 || th2) vf_fail(NULL, "pp_add_k12_projc raised (%d, %d)", th1, th2);
+		else { gt_get(&A, l1); gt_get(&B, l2); if (!relt_eq(&T12, &A, &B)) vf_fail(NULL, "pp_add_k12_projc: basic and lazyr line values differ"); r1->coord = PROJC; r2->coord = PROJC; expect_pt2("pp_add_k12_projc_basic point", r1, &S, 0, NULL); expect_pt2("pp_add_k12_projc_lazyr point", r2, &S, 0, NULL); }
+	}
+	/* affine line functions */
+	{ ep2_inject(q, &R, REP_AFF, 0); fp12_zero(l1); VF_TRY(th1, pp_dbl_k12_basic(l1, r1, q, p)); transitions++; if (th1) vf_fail(NULL, "pp_dbl_k12_basic raised %d", th1); else expect_pt2("pp_dbl_k12_basic point", r1, &D, 0, NULL);
+		if (!rpt2_eq(&R, &Q) && !S.inf) { ep2_inject(q, &Q, REP_AFF, 0); ep2_inject(r1, &R, REP_AFF, 0); fp12_zero(l1); VF_TRY(th1, pp_add_k12_basic(l1, r1, q, p)); if (th1) vf_fail(NULL, "pp_add_k12_basic raised %d", th1); else expect_pt2("pp_add_k12_basic point", r1, &S, 0, NULL); } }
+	rpt_clear(&P); rpt2_clear(&R); rpt2_clear(&Q); rpt2_clear(&D); rpt2_clear(&S); relt_clear(&A); relt_clear(&B);
+}
+
 static void run_case(vf_case *c) {
 	if (!select_pc(mpz_get_si(c->v[0]))) { vf_fail(NULL, "parameter set %ld could not be installed", mpz_get_si(c->v[0])); return; }
 	vf_nontrivial();
-	if (!strcmp(c->op, "base")) do_base(c); else if (!strcmp(c->op, "pair")) do_pair(c); else if (!strcmp(c->op, "sim")) do_sim(c); else vf_fail(NULL, "unknown op");
+	if (!strcmp(c->op, "base")) do_base(c); else if (!strcmp(c->op, "pair")) do_pair(c); else if (!strcmp(c->op, "sim")) do_sim(c); else if (!strcmp(c->op, "line")) do_line(c); else vf_fail(NULL, "unknown op");
 }
 
 static vf_case K;
@@ -134,12 +165,13 @@ static void enumerate(void) {
 		/* scalar alphabet: 0, 1, 2, -1, r-1, r, r+1, 2^64, a 200-bit value (thorough: plus 3, -2, 2r, 2^255) */
 		vf_dom S; vf_dom_init(&S); vf_dom_add_si(&S, 0); vf_dom_add_si(&S, 1); vf_dom_add_si(&S, 2); vf_dom_add_si(&S, -1); vf_dom_add_near(&S, RN, 0);
 		mpz_set_ui(t, 1); mpz_mul_2exp(t, t, 64); vf_dom_add(&S, t); mpz_set_str(t, "c29f1e8f7a5b6c3d2e1f0a9b8c7d6e5f4a3b2c1d0e9f8a7b6c", 16); vf_dom_add(&S, t);
-		if (vf_tier) { vf_dom_add_si(&S, 3); vf_dom_add_si(&S, -2); mpz_mul_2exp(t, RN, 1); vf_dom_add(&S, t); mpz_set_ui(t, 1); mpz_mul_2exp(t, t, 255); vf_dom_add(&S, t); }
+		vf_dom_add_si(&S, 3); vf_dom_add_si(&S, -2); mpz_mul_2exp(t, RN, 1); vf_dom_add(&S, t); mpz_set_ui(t, 1); mpz_mul_2exp(t, t, 255); vf_dom_add(&S, t);
+		if (vf_tier) { vf_dom_add_si(&S, 5); vf_dom_add_si(&S, -7); mpz_fdiv_q_2exp(t, RN, 1); vf_dom_add_near(&S, t, 0); mpz_set_ui(t, 1); mpz_mul_2exp(t, t, 128); vf_dom_add_near(&S, t, 0); mpz_set_str(t, "5555555555555555555555555555555555555555555555555555555555555555", 16); vf_dom_add(&S, t); }
 		vf_dom_uniq(&S);
 		for (int mi = 0; mi < NMAPS; mi++) for (int bi = 0; bi < NBASES; bi++) if (vf_mine()) { K.op = "base"; K.n = 3; mpz_set_si(K.v[1], mi); mpz_set_si(K.v[2], bi); vf_run(&K); }
-		for (int mi = 0; mi < NMAPS; mi++) for (int bi = 0; bi < (vf_tier ? NBASES : 2); bi++) for (int a = 0; a < S.n; a++) for (int b = 0; b < S.n && !vf_expired(); b++) for (int rep = 0; rep < 4; rep++) {
+		for (int mi = 0; mi < NMAPS; mi++) for (int bi = 0; bi < NBASES; bi++) for (int a = 0; a < S.n; a++) for (int b = 0; b < S.n && !vf_expired(); b++) for (int rep = 0; rep < 4; rep++) {
 			if (rep && DREP == REP_AFF) continue;
-			if (!vf_tier && bi == 1 && rep != 0 && rep != 3) continue;
+			if (!vf_tier && bi >= 1 && rep != 0 && rep != 3) continue;
 			if (!vf_mine()) continue;
 			K.op = "pair"; K.n = 7; mpz_set_si(K.v[1], mi); mpz_set_si(K.v[2], bi); mpz_set(K.v[3], S.v[a]); mpz_set(K.v[4], S.v[b]); mpz_set_si(K.v[5], rep & 1); mpz_set_si(K.v[6], rep >> 1); vf_run(&K); }
 		/* multi-pairings: m in 0..4 (thorough: ..6), identity in the G1 slot, G2 slot or both at every subset of positions for m <= 3, at each single position above */
@@ -148,6 +180,8 @@ static void enumerate(void) {
 			for (long sub = 0; sub < (nsub ? nsub : 1 + 3 * m); sub++) for (long v = 0; v < (vf_tier ? 3 : 1); v++) if (vf_mine()) {
 				long idb = nsub ? sub : (sub == 0 ? 0 : ((1 + (sub - 1) % 3) << (2 * ((sub - 1) / 3))));
 				K.op = "sim"; K.n = 4; mpz_set_si(K.v[1], mi); mpz_set_si(K.v[2], m); mpz_set_si(K.v[3], (idb << 8) | (long)((sub * 5 + v * 11 + m) & 0xff)); vf_run(&K); } }
+		/* line functions: (a, b, c) over small multiples */
+		for (int bi = 0; bi < 2; bi++) for (long a = 1; a <= 3; a++) for (long b = 1; b <= (vf_tier ? 12 : 6); b++) for (long c2 = -3; c2 <= 6; c2++) if (vf_mine()) { K.op = "line"; K.n = 5; mpz_set_si(K.v[1], bi); mpz_set_si(K.v[2], a); mpz_set_si(K.v[3], b); mpz_set_si(K.v[4], c2); vf_run(&K); }
 		vf_dom_clear(&S);
 		vf_bound_done(bn);
 	}
